@@ -26,10 +26,10 @@ CHECKS = {
         text="20k (quick) / 600k (thorough) client scripts with partitions, holds, releases, repairs, slow handlers and concurrent requests over hyper/h2 on turmoil's simulated TCP, plus 20k scripts on the in-process transport where the fault sits between reply head and reply body; clients are built directly, cloned once or twice from a configured client or re-configured, and use send, send_owned or a context with headers.",
         note="turmoil 0.4.0 is used with one simulator fix (vendor/README.md). The turmoil client of the repository serialises requests per channel; faults act at segment granularity. Head/body stalls are only reachable through hook H-rpc.", ref="3 C14"),
     "C17": dict(engine="E5-storage", technique=PBT + " (model-based: every bundled backend vs a HashMap reference after every call, incl. close/reopen)",
-        text="20k MemStore, 5k SQLite in-memory, 3k SQLite file and 5k LMDB call sequences per quick run (x30 thorough), with full read-back (iter_metadata, get of every id, multi_get, keyspace list) after every call and close/reopen at generated points.",
+        text="20k MemStore, 5k SQLite in-memory, 3k SQLite file and 5k LMDB call sequences per quick run (x30 thorough), every read call compared with the model, a full read-back (iter_metadata, get of every id, multi_get, keyspace list before / between / after the keyspace reads) after every call in two thirds of the cases and only after a generated subset of the calls in the others (so that reading cannot mask a state), and close/reopen at generated points.",
         note="Scratch databases live in /dev/shm (tmpfs): fsync durability against power loss is not examined, only close/reopen.", ref="3 C17"),
-    "C02": dict(engine="E2-actor", technique=PBT + " (model-based: storage contents vs deserialised set after every request, injected storage faults)",
-        text="Randomised request histories (300k quick / 10M thorough) against the real KeyspaceGroup actors on an inspectable fault-injecting store; set and store are compared after every request. Exploration: finds counterexamples, proves nothing.",
+    "C02": dict(engine="E2-actor+E5-storage", technique=PBT + " (model-based: storage contents vs deserialised set after every request, injected storage faults)",
+        text="Randomised request histories (300k quick / 10M thorough) against the real KeyspaceGroup actors on an inspectable fault-injecting store; set and store are compared after every request; plus 6k SQLite-file and 20k LMDB histories (x30 thorough) on the real backends without fault injection, compared after every request and again after close / reopen / reload. Exploration: finds counterexamples, proves nothing.",
         note="Trusts ModelStore (harness Storage implementation that honours the BulkMutationError contract) and the view obtained through Serialize + diff-against-empty.", ref="3 C02"),
     "C03": dict(engine="E1-pure", technique=PBT + " (algebraic laws of merge on generated replica triples)",
         text="1M (quick) / 60M (thorough) generated replica triples satisfying the statement's precondition by construction; commutativity, associativity, idempotence, schedule independence and lookup agreement are checked on each.",
